@@ -70,6 +70,29 @@ Proof.
 Qed.
 Print Assumptions C19_tables_are_interpretations.
 
+(** the two validate functions of validate.cpp that File::validate never calls (the correspondence run calls
+    them directly): their model tables are interpretations of the generated description too; on a descriptor
+    reached through DataArray::dimensions() and on a file the library created they report nothing *)
+Theorem C19_uncalled_tables :
+  (forall idx, validate_dimension idx = table model_rules "Dimension" unknown_id (env_dimension idx))
+  /\ (forall h, validate_file h = table model_rules "File" (h_id h) (env_file h))
+  /\ (forall idx, 1 <= idx -> validate_dimension idx = rnil)
+  /\ (forall h, h_open h = true -> (exists c, h_created h = Some c /\ c <> 0) -> h_version_n h <> 0 ->
+                 h_format h <> "" -> h_location h <> "" -> validate_file h = rnil).
+Proof.
+  exact (conj (table_dimension propUnit_variant) (conj (table_file propUnit_variant)
+        (conj validate_dimension_clean validate_file_clean))).
+Qed.
+Print Assumptions C19_uncalled_tables.
+
+(** Result::ok / hasErrors / hasWarnings against Result::concat *)
+Theorem C19_result_accessors : forall a b,
+  has_errors (rconcat a b) = has_errors a || has_errors b
+  /\ has_warnings (rconcat a b) = has_warnings a || has_warnings b
+  /\ result_ok (rconcat a b) = result_ok a && result_ok b.
+Proof. exact (fun a b => conj (has_errors_rconcat a b) (conj (has_warnings_rconcat a b) (result_ok_rconcat a b))). Qed.
+Print Assumptions C19_result_accessors.
+
 (** File::validate reports exactly what the rule tables of the visited entities report, entity
     by entity (blocks, arrays, range/set/sampled dimensions, multi-tags, tags, their features,
     all sources, all sections, their properties) — errors ([k = true]) and warnings alike. *)
